@@ -211,39 +211,68 @@ def rule_b3(ctx: Ctx) -> None:
             ctx.violation("C03-B3", f, rets[0], "adjacent positions and adjacent values are returned in the wrong order")
 
 
+def _reach_conditions(fi: FuncInfo, wanted, classify):
+    """For every node selected by ``wanted`` say under which polarity of the classified test it is reached
+    ('T', 'F' or '?'): if/else, and `if C: ...; return` followed by the other case."""
+    out = {}
+
+    def flip(p):
+        return {"T": "F", "F": "T"}.get(p, "?")
+
+    def walk(stmts, cond):
+        for i, st in enumerate(stmts):
+            if isinstance(st, ast.If):
+                p = classify(st.test)
+                inner = (p if cond is None else "?") if p else cond
+                walk(st.body, inner)
+                walk(st.orelse, (flip(p) if cond is None else "?") if p else cond)
+                ends = bool(st.body) and isinstance(st.body[-1], (ast.Return, ast.Raise, ast.Continue, ast.Break))
+                if p and ends and not st.orelse and cond is None:
+                    walk(stmts[i + 1:], flip(p))
+                    return
+                continue
+            for n in ast.walk(st):
+                if wanted(n):
+                    out.setdefault(id(n), (n, set()))[1].add(cond if cond else "-")
+    walk(fi.body, None)
+    return [(n, (next(iter(c)) if len(c) == 1 else "?")) for n, c in out.values()]
+
+
 def rule_b4(ctx: Ctx) -> None:
     repo = ctx.repo
     f = repo.need_method("MeshPatt", "occurrences_in")
     patt = f.params[1]
     concrete = [c.name for c in repo.subclasses("Patt", strict=True)]
-    ifs = [st for st in f.body if isinstance(st, ast.If)]
-    if len(ifs) != 1:
-        raise AnalysisError(f"{f.where}: dispatch not recognised")
-    d = ifs[0]
-    t = unparse(d.test)
-    branches = {}
-    if t == f"isinstance({patt}, Perm)":
-        branches = {"Perm": d.body, "other": d.orelse}
-    elif t == f"isinstance({patt}, MeshPatt)":
-        branches = {"other": d.body, "Perm": d.orelse}
-    else:
-        raise AnalysisError(f"{f.where}: dispatch test `{t}` not recognised")
 
-    def target_of(stmts) -> Optional[str]:
-        if len(stmts) == 1:
-            v = stmts[0].value if isinstance(stmts[0], (ast.Expr, ast.Return)) else None
-            if isinstance(v, ast.YieldFrom):
-                v = v.value
-            if isinstance(v, ast.Call) and call_name(v) and call_name(v)[0] == f.params[0] and [unparse(a) for a in v.args] == [patt]:
-                return call_name(v)[1]
+    def classify(test: ast.AST):
+        t = unparse(test)
+        if t == f"isinstance({patt}, Perm)":
+            return "T"
+        if t in (f"not isinstance({patt}, Perm)", f"isinstance({patt}, MeshPatt)"):
+            return "F"
         return None
 
-    tp, to = target_of(branches["Perm"]), target_of(branches["other"])
-    if tp == "_occurrences_in_perm" and to == "_occurrences_in_mesh":
-        ctx.ok("C03-B4", f.where, "Perm targets -> permutation search, every other admissible target -> mesh search", d, f)
+    def wanted(n: ast.AST) -> bool:
+        return isinstance(n, ast.Call) and call_name(n) is not None and len(call_name(n)) == 2 and call_name(n)[0] == f.params[0] and call_name(n)[1] in ("_occurrences_in_perm", "_occurrences_in_mesh") \
+            and [unparse(a) for a in n.args] == [patt]
+
+    reach = _reach_conditions(f, wanted, classify)
+    by = {}
+    for n, c in reach:
+        by.setdefault(call_name(n)[1], set()).add(c)
+    if set(by) != {"_occurrences_in_perm", "_occurrences_in_mesh"} or any(len(v) != 1 for v in by.values()):
+        raise AnalysisError(f"{f.where}: dispatch on the kind of target not recognised (calls found under: { {k: sorted(v) for k, v in by.items()} })")
+    tp, tm = next(iter(by["_occurrences_in_perm"])), next(iter(by["_occurrences_in_mesh"]))
+    node = min((n for n, _c in reach), key=lambda n: n.lineno)
+    if tp == "T" and tm == "F":
+        ctx.ok("C03-B4", f.where, "Perm targets -> permutation search, every other admissible target -> mesh search", node, f)
+    elif tp == "F" and tm == "T":
+        ctx.violation("C03-B4", f, node, "dispatch sends Perm targets to `_occurrences_in_mesh` and other targets to `_occurrences_in_perm`; expected _occurrences_in_perm / _occurrences_in_mesh")
     else:
-        ctx.violation("C03-B4", f, d, f"dispatch sends Perm targets to `{tp}` and other targets to `{to}`; expected _occurrences_in_perm / _occurrences_in_mesh")
-    asserts = [st for st in f.body if isinstance(st, ast.Assert)]
+        raise AnalysisError(f"{f.where}: dispatch on the kind of target not recognised (perm search under {tp}, mesh search under {tm})")
+    # an assertion on the target that comes before the dispatch restricts both branches
+    first_disp = min((f.body.index(st) for st in f.body if any(wanted(n) for n in ast.walk(st))), default=len(f.body))
+    asserts = [st for st in f.body[:first_disp] if isinstance(st, ast.Assert)]
     admissible = None
     for a in asserts:
         if isinstance(a.test, ast.Call) and call_name(a.test) == ("isinstance",) and unparse(a.test.args[0]) == patt:
@@ -257,8 +286,8 @@ def rule_b4(ctx: Ctx) -> None:
             ctx.ok("C03-B4", repo.cls(c).where, "concrete pattern class handled by the mesh branch")
         else:
             ctx.violation("C03-B4", repo.cls(c).where, repo.cls(c).node, f"pattern class {c} is neither a Perm nor a MeshPatt: MeshPatt.occurrences_in would treat it as a mesh pattern", file=repo.cls(c).module.relpath)
-    if admissible is not None and not admissible >= {"Perm", "MeshPatt"}:
-        ctx.violation("C03-B4", f, asserts[0], f"admissible targets {sorted(admissible)} exclude Perm or MeshPatt")
+    if admissible is not None and not (admissible >= {"Perm", "MeshPatt"} or "Patt" in admissible):
+        ctx.violation("C03-B4", f, asserts[0], f"admissible targets {sorted(admissible)} exclude Perm or MeshPatt before the dispatch")
 
 
 def rule_b5(ctx: Ctx) -> None:
